@@ -381,7 +381,7 @@ type recordText struct {
 	Rest string
 }
 
-var recordLines = []string{"example.com/m v1.0.0 h1:abc=", "example.com/m v1.0.0/go.mod h1:def=", "a", " ", "é日本", "x\ty", "x\x00y", "\xff", "x\ry", "", "0", "-", "go.sum database tree", " ", "\x7f", "\x1f"}
+var recordLines = []string{"replacement \ufffd char", "\ufffd", "bom \ufeff", "sep \u2028 \u2029", "nel \u0085", "del \x7f", "max \U0010ffff", "example.com/m v1.0.0 h1:abc=", "example.com/m v1.0.0/go.mod h1:def=", "a", " ", "é日本", "x\ty", "x\x00y", "\xff", "x\ry", "", "0", "-", "go.sum database tree", " ", "\x7f", "\x1f"}
 
 func genRecordText(t *rapid.T) recordText {
 	c := recordText{}
